@@ -84,3 +84,69 @@ Theorem braced_equals_piled :
   = oerase (linearize (piled col b)).
 Proof. exact braced_equals_piled_grammar. Qed.
 Print Assumptions braced_equals_piled.
+
+(* ------------------------------------------------------------------ the scanner's cursor (include.c / scan.c) *)
+Require Import AV.Linear.Scan AV.Linear.ScanFacts.
+
+(* include.c's inclCalcIndentLevel and scan.c's scAdvance0 compute the same column for EVERY
+   string w of blanks and tabs: the column of the character after w, w following a character at
+   column k, is the indentation of w standing after k + 1 columns. *)
+Theorem incl_indent_eq_scan_column : forall w a x r rs k l sy e f,
+  wsOnly w -> isBlankTab x = false ->
+  col (iter (S (length w)) adv0 (mkSt (a :: w ++ x :: r) rs k l sy e f))
+  = fst (inclIndent (w ++ x :: r) (k + 1)).
+Proof. exact ScanFacts.incl_indent_eq_scan_column. Qed.
+Print Assumptions incl_indent_eq_scan_column.
+
+(* A rendered statement: tokens (escape-free texts the abstract recogniser [munch] cuts off in the
+   float state the scanner is in: the state before the line for the first token, floatCanFollow of the
+   previous token afterwards) separated by gaps — any blanks / tabs, nothing at all where the
+   recogniser separates the neighbours anyway, or `blanks _ blanks newline`, any number of blank lines
+   and a continuation line of any indentation (the float state survives the escaped break).  The
+   scanner delivers exactly the tokens, then the newline. *)
+Theorem scan_logical_line : forall (munch : N -> list (N * bool) -> nat * N) F its wsEnd rest0 s,
+  itemsOK munch F (fls s) its wsEnd rest0 ->
+  (cur s, rest s) = layout its wsEnd rest0 -> sys s = false -> esc s = false ->
+  exists tks sNL,
+    takeToks munch F (S (length its)) s
+      = Some (tks, setFls (adv F false sNL) (floatCanFollow KW_NewLine)) /\
+    map stTag tks = map itag its ++ [KW_NewLine] /\
+    cur sNL = [cNL] /\ rest sNL = rest0.
+Proof. exact ScanFacts.scan_logical_line. Qed.
+Print Assumptions scan_logical_line.
+
+(* Two renderings of one token sequence that differ only in the blanks and tabs between tokens
+   scan to the same tokens up to columns. *)
+Theorem scan_spacing_insens : forall (munch : N -> list (N * bool) -> nat * N)
+    F its its' wsEnd wsEnd' rest0 s s',
+  map itext its = map itext its' -> map itag its = map itag its' ->
+  allPlain its -> allPlain its' -> fls s = fls s' ->
+  itemsOK munch F (fls s) its wsEnd rest0 -> itemsOK munch F (fls s') its' wsEnd' rest0 ->
+  (cur s, rest s) = layout its wsEnd rest0 -> (cur s', rest s') = layout its' wsEnd' rest0 ->
+  sys s = false -> esc s = false -> sys s' = false -> esc s' = false ->
+  exists tks tks' e e',
+    takeToks munch F (S (length its)) s = Some (tks, e) /\
+    takeToks munch F (S (length its')) s' = Some (tks', e') /\
+    map stTag tks = map stTag tks'.
+Proof. exact ScanFacts.scan_spacing_insens. Qed.
+Print Assumptions scan_spacing_insens.
+
+(* An escaped line break — any blanks after the `_`, any number of blank lines, any indentation of
+   the continuation — scans like the unbroken line (the recogniser is asked in the same float state
+   for every token of both renderings), and leaves the scanner before the same text. *)
+Theorem escape_join_insens : forall (munch : N -> list (N * bool) -> nat * N)
+    F its its' wsEnd wsEnd' rest0 s s',
+  map itext its = map itext its' -> map itag its = map itag its' ->
+  allPlain its' -> fls s = fls s' ->
+  itemsOK munch F (fls s) its wsEnd rest0 -> itemsOK munch F (fls s') its' wsEnd' rest0 ->
+  (cur s, rest s) = layout its wsEnd rest0 -> (cur s', rest s') = layout its' wsEnd' rest0 ->
+  sys s = false -> esc s = false -> sys s' = false -> esc s' = false ->
+  exists tks tks' sNL sNL',
+    takeToks munch F (S (length its)) s
+      = Some (tks, setFls (adv F false sNL) (floatCanFollow KW_NewLine)) /\
+    takeToks munch F (S (length its')) s'
+      = Some (tks', setFls (adv F false sNL') (floatCanFollow KW_NewLine)) /\
+    map stTag tks = map stTag tks' /\
+    cur sNL = cur sNL' /\ rest sNL = rest sNL'.
+Proof. exact ScanFacts.escape_join_insens. Qed.
+Print Assumptions escape_join_insens.
